@@ -466,13 +466,34 @@ theorem deltaParams_nonneg (delta : PenMap) (h : ∀ a v, delta a = some v → i
   | none => simp [hd] at hpa
   | some v => simp only [hd] at hpa; exact attrParams_nonneg a v (h a v hd) p hpa
 
+theorem attrParams'_eq (single : Bool) (a : Attr) (v : Int) (h : inDomain a v = true) :
+    attrParams' single a v = attrParams a v := by
+  unfold attrParams'
+  split
+  · rename_i hc
+    obtain ⟨_, ha, h0, h1⟩ := hc
+    subst ha
+    simp [inDomain] at h
+    omega
+  · rfl
+
+theorem deltaParams'_eq (single : Bool) (delta : PenMap) (h : ∀ a v, delta a = some v → inDomain a v = true) :
+    deltaParams' single delta = deltaParams delta := by
+  unfold deltaParams' deltaParams
+  congr 1
+  funext a
+  cases hd : delta a with
+  | none => rfl
+  | some v => exact attrParams'_eq single a v (h a v hd)
+
 /-- `chpen` read by the terminal: an SGR, or nothing. -/
-theorem feed_drvChpen (d : XDrv) (delta final : PenMap) (m : VModes) (A : Attrs)
+theorem feed_drvChpen (cfg : Cfg) (d : XDrv) (delta final : PenMap) (m : VModes) (A : Attrs)
     (h : ∀ a v, delta a = some v → inDomain a v = true) :
-    VT.feed ⟨.ground, m, A⟩ (drvChpen d delta final) =
+    VT.feed ⟨.ground, m, A⟩ (drvChpen cfg d delta final) =
       ⟨.ground, m, if (deltaParams delta).isEmpty then A
         else sgrRun (groupsAcc (decide (d.cap.csiSubColon ≠ 0)) [] [] (if isNondefault final then deltaParams delta else [])) A⟩ := by
   unfold drvChpen
+  rw [deltaParams'_eq _ delta h]
   simp only
   split
   · rfl
@@ -482,7 +503,6 @@ theorem feed_drvChpen (d : XDrv) (delta final : PenMap) (m : VModes) (A : Attrs)
     split at hp
     · exact deltaParams_nonneg delta h p hp
     · simp at hp
-
 
 /-- The ghost (values last set) and the driver's shadow agree; with guarded replies, a value that
     has been set explicitly is marked `initialised`. -/
@@ -969,7 +989,7 @@ theorem step_inv (cfg : Cfg) (s : Sys) (vt : VT) (ph ph' : Phase) (g : Ghost) (o
     have hp : penInDomain p = true := by simpa [opOk] using hok
     obtain ⟨hd1, hd2⟩ := penNext_dom true s.term.pen p hpd hp
     simp only [Sys.step, Term.putpen]
-    rw [feed_drvChpen _ _ _ _ _ hd2]
+    rw [feed_drvChpen _ _ _ _ _ _ hd2]
     exact ⟨rfl, hml, hkz, hst, hsh, fun hne => absurd rfl hne, ⟨hgh.alt, hgh.vis, hgh.mouse, hgh.keypad, hgh.blink, hgh.shape, hgh.visInit, hgh.le1⟩, hsu, hd1⟩
   | chpen p =>
     cases ph <;> simp [phaseNext] at hph
@@ -977,7 +997,7 @@ theorem step_inv (cfg : Cfg) (s : Sys) (vt : VT) (ph ph' : Phase) (g : Ghost) (o
     have hp : penInDomain p = true := by simpa [opOk] using hok
     obtain ⟨hd1, hd2⟩ := penNext_dom false s.term.pen p hpd hp
     simp only [Sys.step, Term.putpen]
-    rw [feed_drvChpen _ _ _ _ _ hd2]
+    rw [feed_drvChpen _ _ _ _ _ _ hd2]
     exact ⟨rfl, hml, hkz, hst, hsh, fun hne => absurd rfl hne, ⟨hgh.alt, hgh.vis, hgh.mouse, hgh.keypad, hgh.blink, hgh.shape, hgh.visInit, hgh.le1⟩, hsu, hd1⟩
   | print bytes =>
     cases ph <;> simp [phaseNext] at hph
@@ -1069,7 +1089,7 @@ theorem step_inv (cfg : Cfg) (s : Sys) (vt : VT) (ph ph' : Phase) (g : Ghost) (o
       have : s.term.state ≠ .unstarted := fun hc => by simpa using hst.2 hc
       simp [this]
     split
-    · rw [feed_drvChpen _ _ _ _ _ hpd]
+    · rw [feed_drvChpen _ _ _ _ _ _ hpd]
       exact ⟨rfl, hml, hkz, hst', fun _ => hs', fun hne => absurd rfl hne, hgh, hsu, hpd⟩
     · exact ⟨rfl, hml, hkz, hst', fun _ => hs', fun hne => absurd rfl hne, hgh, hsu, hpd⟩
   | teardown =>
@@ -1733,7 +1753,7 @@ theorem pstep_inv (cfg : Cfg) (s : Sys) (vt : VT) (ph ph' : Phase) (g : Ghost) (
     have hp : penInDomain p = true := by simpa [opOk] using hok
     obtain ⟨hd1, hd2⟩ := penNext_dom true s.term.pen p hdom hp
     simp only [Sys.step, Term.putpen]
-    rw [feed_drvChpen _ _ _ _ _ hd2]
+    rw [feed_drvChpen _ _ _ _ _ _ hd2]
     refine ⟨rfl, ?_, hd1, fun _ => ?_, fun hne => absurd rfl hne, hst⟩
     · show penNext true s.term.pen p = logicalPen true g.pen p
       rw [penNext_eq_logical, hpen]
@@ -1744,7 +1764,7 @@ theorem pstep_inv (cfg : Cfg) (s : Sys) (vt : VT) (ph ph' : Phase) (g : Ghost) (
     have hp : penInDomain p = true := by simpa [opOk] using hok
     obtain ⟨hd1, hd2⟩ := penNext_dom false s.term.pen p hdom hp
     simp only [Sys.step, Term.putpen]
-    rw [feed_drvChpen _ _ _ _ _ hd2]
+    rw [feed_drvChpen _ _ _ _ _ _ hd2]
     refine ⟨rfl, ?_, hd1, fun _ => ?_, fun hne => absurd rfl hne, hst⟩
     · show penNext false s.term.pen p = logicalPen false g.pen p
       rw [penNext_eq_logical, hpen]
@@ -1810,7 +1830,7 @@ theorem pstep_inv (cfg : Cfg) (s : Sys) (vt : VT) (ph ph' : Phase) (g : Ghost) (
       have : s.term.state ≠ .unstarted := fun hc => by simpa using hst.2 hc
       simp [this]
     by_cases hr : cfg.resumeResendsPen = true
-    · rw [if_pos hr, feed_drvChpen _ _ _ _ _ hdom]
+    · rw [if_pos hr, feed_drvChpen _ _ _ _ _ _ hdom]
       refine ⟨rfl, hpen, hdom, fun _ => ?_, fun hne => absurd rfl hne, hst'⟩
       exact chpen_establishes s.term.drv PenMap.empty s.term.pen s.term.pen A hdom hdom
         (fun a ha => ha) (fun a v ha => ha) (fun a v ha => by cases ha)
